@@ -159,6 +159,16 @@ def normalize(context, operands):
     return tuple(new_operands)
 
 
+def _negative_zeros(value):
+    """Return a true value iff value (or a part of a complex value) is a negative zero."""
+    if isinstance(value, (complex, numpy.complexfloating)):
+        re, im = _negative_zeros(value.real), _negative_zeros(value.imag)
+        return (re, im) if re or im else False
+    if isinstance(value, (float, numpy.floating)):
+        return bool(value == 0 and numpy.signbit(value))
+    return False
+
+
 def toidentifier(value):
     if isinstance(value, bool):
         return str(value)
@@ -172,6 +182,8 @@ def toidentifier(value):
         except OverflowError:
             intvalue = None
         if value == intvalue and intvalue.bit_length() <= 64:
+            if intvalue == 0 and math.copysign(1, value) < 0:
+                return "fneg0"
             return "f" + toidentifier(intvalue)
         if math.isinf(value):
             return "posinf" if value > 0 else "neginf"
@@ -187,6 +199,8 @@ def toidentifier(value):
         except OverflowError:
             intvalue = None
         if value == intvalue and intvalue.bit_length() <= value.dtype.itemsize * 8:
+            if intvalue == 0 and numpy.signbit(value):
+                return value.dtype.kind + "neg0"
             return value.dtype.kind + toidentifier(intvalue)
         if numpy.isposinf(value):
             return "posinf"
@@ -424,9 +438,18 @@ class Expr:
             r = (self.kind, *self.operands)
         elif self.kind == "constant":
             value, like = self.operands
+            if isinstance(value, Expr):
+                value_key = value.key
+            else:
+                value_key = (value, type(value).__name__)
+                # 0.0 and -0.0 compare and hash equal but are
+                # different constants
+                negative_zeros = _negative_zeros(value)
+                if negative_zeros:
+                    value_key += (negative_zeros,)
             r = (
                 "z_" + self.kind,  # prefix `z_` ensures that constants are sorted as largest kinds
-                value.key if isinstance(value, Expr) else (value, type(value).__name__),
+                value_key,
                 like.key,
             )
         else:
